@@ -218,6 +218,8 @@ def run(eng: Engine, ck: Check):
         written = {a for a in attrs if eng.stores_to_attr(a, [f])}
         ck.ob('R-C16-DESTROY', f, f.node, f'{q} clears {attrs}', written == set(attrs), f'cleared {sorted(written)}', construct=f'{q} clears fields')
 
+    from . import defs as _defs_emit
+    _defs_emit.event_bus_emit_contains(eng, ck, 'R-C16-DESTROY', 'session creation / destruction and every state report await emit(); an escaping listener failure leaves the life cycle half done')
     # ---- R-C16-RECONNECT
     sc = eng.func(NET, 'Network._on_server_connection_state_changed')
     ck.visited(sc)
@@ -499,3 +501,8 @@ def tasks_rule(eng: Engine, ck: Check):
     ck.floor('R-C16-TASKS.wrappers', len(inst), 9)
     for f, n, slot, kind in inst:
         owned(slot, f'{kind} instance created in {f.qualname}', f, n)
+    from . import defs as _defs_c
+    _defs_c.cancellation_propagates(eng, ck, 'R-C16-TASKS', 'stop() and the watchdog end library tasks by cancelling them')
+    from . import defs as _d16
+    _d16.presence_truthiness(eng, ck, 'R-C16-ADVERT', [('Session', 'session.py'), ('BackgroundTask', 'tasks.py')], 'handlers test `if self._session` / `if not self._session` to decide whether there is a logged-in user')
+    _d16.enum_members_distinct(eng, ck, 'R-C16-RECONNECT', [('CloseReason', 'network/connection.py'), ('ConnectionState', 'network/connection.py')], 'the reconnect decision distinguishes requested / EOF / lost')
